@@ -66,6 +66,10 @@ UNBOUNDED_DESER = {"bincode::deserialize_from", "bincode::config::Options::deser
                    "bincode::deserialize_from_custom"}
 
 
+INT_BITS = {"u8": 8, "u16": 16, "u32": 32, "u64": 64, "u128": 128, "usize": 64, "i8": 8, "i16": 16, "i32": 32, "i64": 64, "i128": 128, "isize": 64}
+INT_MAX = {"u8": 2**8 - 1, "u16": 2**16 - 1, "u32": 2**32 - 1, "u64": 2**64 - 1, "usize": 2**64 - 1}
+
+
 class Site:
     def __init__(self, body, kind, what, span, call=None, bb=None, extra=None):
         self.body, self.kind, self.what, self.span, self.call, self.bb, self.extra = body, kind, what, span, call, bb, extra
@@ -89,7 +93,7 @@ def _span_key(sp):
     return (int(m.group(1)), int(m.group(2))) if m else (0, 0)
 
 
-def enumerate_sites(body, include_alloc=True):
+def enumerate_sites(body, include_alloc=True, narrowing=False):
     sites = []
     for c in body.calls():
         n = strip_generics(c.callee)
@@ -113,6 +117,12 @@ def enumerate_sites(body, include_alloc=True):
             sites.append(Site(body, "alloc", "bincode::deserialize_from", c.span, c, c.bb))
         if include_alloc and n in ALLOC_SIZED:
             sites.append(Site(body, "alloc", short, c.span, c, c.bb, extra=ALLOC_SIZED[n]))
+    if narrowing:
+        for i, j, pl, rv, st in body.assigns():
+            if rv["k"] == "cast" and rv.get("cast", "").startswith("IntToInt"):
+                ft, tt = rv.get("from_ty", ""), rv.get("ty", "")
+                if ft in INT_BITS and tt in INT_BITS and (INT_BITS[tt] < INT_BITS[ft] or (INT_BITS[tt] == INT_BITS[ft] and ft[0] != tt[0] and False)):
+                    sites.append(Site(body, "cast", "narrowing:%s->%s" % (ft, tt), st["span"], None, i, extra=rv))
     for i, b in enumerate(body.blocks):
         t = b["term"]
         if t["k"] == "assert" and not b.get("cleanup"):
@@ -551,16 +561,72 @@ def rule_div_const(site, body):
     return None
 
 
-DEFAULT_RULES = [d1_option_guard, d2_map_guard, d4_infallible, d5_counter, rule_buffer_bounds, rule_alloc_size, rule_const_slice, rule_copy_from_slice, rule_sub_guard, rule_div_const]
 
 
-def analyse(ctx, bodies, rule_prefix, extra_rules=(), table=None, skip=None, include_alloc=True, F=None, must_ok=None):
+def _expr_key(body, op, depth=4):
+    """structural key of the expression an operand evaluates (value-numbering light)"""
+    c = flow.const_of(op)
+    if c is not None:
+        return ("c", c)
+    r = flow.root(body, op)
+    if r[0] == "const":
+        return ("c", flow.const_of(r[1]))
+    if r[0] == "rv" and r[1]["k"] == "binop" and depth > 0:
+        return ("b", r[1]["op"], _expr_key(body, r[1]["a"], depth - 1), _expr_key(body, r[1]["b"], depth - 1))
+    if r[0] == "rv" and r[1]["k"] == "cast" and depth > 0:
+        return ("cast", r[1].get("ty"), _expr_key(body, r[1]["op"], depth - 1))
+    if r[0] == "call":
+        return ("call", strip_generics(r[1].callee), r[1].bb)
+    if r[0] in ("arg", "multi", "local", "yield"):
+        return ("l", r[1])
+    if r[0] == "rv" and r[1]["k"] in ("use", "ref") and len(r) > 4:
+        pl = r[1]["op"]["pl"] if r[1]["k"] == "use" else r[1]["pl"]
+        return ("place", canon_place(body, pl))
+    if r[0] == "rv" and len(r) > 4:
+        return ("l", r[4])
+    return ("?", id(op))
+
+
+def rule_narrowing_cast(site, body):
+    """`x as <narrower>`: x is a remainder by a small constant, or a dominating comparison bounds the same expression by the target's MAX"""
+    if site.kind != "cast":
+        return None
+    rv = site.extra
+    tt = rv["ty"]
+    tmax = INT_MAX.get(tt)
+    if tmax is None:
+        return None
+    src = flow.root(body, rv["op"])
+    if src[0] == "rv" and src[1]["k"] == "binop" and src[1]["op"] == "Rem":
+        d = flow.const_of(src[1]["b"])
+        if d is None:
+            rr = flow.root(body, src[1]["b"])
+            d = flow.const_of(rr[1]) if rr[0] == "const" else None
+        if d is not None and d - 1 <= tmax:
+            return "cast: remainder by %d fits %s" % (d, tt)
+    if src[0] == "const" and flow.const_of(src[1]) is not None and flow.const_of(src[1]) <= tmax:
+        return "cast: constant fits"
+    key = _expr_key(body, rv["op"])
+    for op, x, y, gbb in cmp_guards(body, site.bb):
+        kx, ky = _expr_key(body, x), _expr_key(body, y)
+        if kx == key and ky[0] in ("c", "cast") :
+            lim = ky[1] if ky[0] == "c" else (ky[2][1] if ky[2][0] == "c" else None)
+            if lim is not None and ((op == "Le" and lim <= tmax) or (op == "Lt" and lim <= tmax + 1)):
+                return "cast: guarded by %s %s (bb%d)" % (op, lim, gbb)
+        if ky == key and kx[0] in ("c", "cast"):
+            lim = kx[1] if kx[0] == "c" else (kx[2][1] if kx[2][0] == "c" else None)
+            if lim is not None and ((op == "Ge" and lim <= tmax) or (op == "Gt" and lim <= tmax + 1)):
+                return "cast: guarded by %s %s (bb%d)" % (op, lim, gbb)
+    return None
+
+
+def analyse(ctx, bodies, rule_prefix, extra_rules=(), table=None, skip=None, include_alloc=True, F=None, must_ok=None, narrowing=False):
     """Enumerate and discharge. table: {site-key: (reason, obligation(body, site)->bool)} (D6).
     Returns (sites, findings)"""
     sites_all = []
     for b in bodies:
         ctx.touch(b)
-        for s in enumerate_sites(b, include_alloc=include_alloc):
+        for s in enumerate_sites(b, include_alloc=include_alloc, narrowing=narrowing):
             if skip and skip(s):
                 continue
             sites_all.append(s)
@@ -628,3 +694,6 @@ def must_return_ok(F, body, memo=None):
                 return False
             return False
     return True
+
+
+DEFAULT_RULES = [d1_option_guard, d2_map_guard, d4_infallible, d5_counter, rule_buffer_bounds, rule_alloc_size, rule_const_slice, rule_copy_from_slice, rule_sub_guard, rule_div_const, rule_narrowing_cast]
